@@ -3,7 +3,7 @@ import os
 from vcommon import Check
 
 c = Check("C12")
-c.translate(needed=[])
+c.translate(needed=["Gen_C12.v"])
 c.coq(["C12"], "C12", "Prop_C12.v")
 drv = c.model("C12")
 h = c.harness("c12")
@@ -30,6 +30,9 @@ c.finish(
     assumptions=[
         "range sets are the ones NewCodec accepts (valid ranges, no code a prefix of another)",
         "an input that ends inside a code is re-encoded as the consumed bytes followed by zero padding (DESIGN.md C12)",
+        "bytes are < 256 (wfbs)",
+        "a valid range set whose tree needs more nodes than a uint16 child index can address is rejected with an error "
+        "(codec_total: NewCodec never panics; codec_accepts_small: never rejected below 65532 nodes counted without sharing)",
     ],
     trusted=["hand-written Gallina model coq/C12/Codec.v of font/charcode/codec.go, tied by correspondence"],
 )
